@@ -256,10 +256,10 @@ pub fn shrink_plan(p: &Plan) -> Vec<Plan> {
             let mut q = p.clone();
             q.channels.remove(i);
             q.crash_steps.retain(|(c, _)| *c != i);
-            q.entropy.retain(|e| e.0 != i);
+            q.entropy.retain(|e| e.chan != i);
             for e in q.entropy.iter_mut() {
-                if e.0 > i {
-                    e.0 -= 1;
+                if e.chan > i {
+                    e.chan -= 1;
                 }
             }
             for cs in q.crash_steps.iter_mut() {
@@ -388,9 +388,9 @@ pub fn shrink_plan(p: &Plan) -> Vec<Plan> {
             }
         }
         for i in 0..p.entropy.len() {
-            if p.entropy[i].4 > 1 {
+            if p.entropy[i].width > 1 {
                 let mut q = p.clone();
-                q.entropy[i].4 -= 1;
+                q.entropy[i].width -= 1;
                 out.push(q);
             }
         }
